@@ -162,6 +162,10 @@ class History:
                 out = m.evaluate_new_data(self.frames[di])
             arr = np.asarray(out.design_matrix)
             self.results.append((arr, arr.copy(), out, self._layout(out)))
+            try:  # users print what they get; printing is an observation, not an operation
+                str(out), repr(out)
+            except Exception:  # pylint: disable=broad-except
+                pass
             return fresh_tasks.observe_matrix(out)
 
         res = fresh_tasks.guarded(run)
@@ -212,7 +216,13 @@ class History:
                 d_ = getattr(obj, "data", None)
                 if isinstance(d_, np.ndarray):
                     held.append(fresh_tasks.nan_safe(np.array(d_, dtype=float, copy=True).tolist()))
-            out.append((name, sl.start, sl.stop, view, held))
+            # the group names a group-specific term goes by (printing a result must not add to them)
+            groups = getattr(term, "groups", None)
+            out.append((name, sl.start, sl.stop, view, held, None if groups is None else [str(g_) for g_ in groups]))
+        try:
+            out.append(("__str__", str(m)))
+        except Exception as e:  # pylint: disable=broad-except
+            out.append(("__str__", type(e).__name__))
         return out
 
     @classmethod
